@@ -238,9 +238,16 @@ impl<F: Float, L> ParamGuard for SvmParams<F, L> {
                 )));
             }
         }
-        if let Some((nu, _)) = self.0.nu {
+        if let Some((nu, c)) = self.0.nu {
             if nu <= F::zero() || nu > F::one() {
                 return Err(SvmError::InvalidNu(nu.to_f32().unwrap()));
+            }
+            // for classification the second value repeats `nu`, for regression it is the C value
+            if c <= F::zero() {
+                return Err(SvmError::InvalidC((
+                    c.to_f32().unwrap(),
+                    c.to_f32().unwrap(),
+                )));
             }
         }
 
